@@ -82,7 +82,7 @@ class _StringSourceContentsOfConstStrAndExistingPath(StringSourceContents):
     @contextmanager
     def as_lines(self) -> ContextManager[Iterator[str]]:
         if self._contents_as_lines is None:
-            self._contents_as_lines = self._contents_as_str.splitlines(keepends=True)
+            self._contents_as_lines = contents_of_str.lines_of(self._contents_as_str)
 
         yield iter(self._contents_as_lines)
 
